@@ -299,7 +299,7 @@ F1 = "0000000c" + "00000001" + "ee" * 8
 F2 = "0000000c" + "00000002" + "ee" * 8
 ALPHABET = [
     "make 1 1", "make 2 1", "make 2 0", "make 2 0 hook close", "make 1 1 hook cancel 2", "make 2 0 hook cancel 1",
-    "make 1 1 hook make 2 1", "make 2 0 hook disconnect", "cancel 1", "cancel 2", "connOk", "connFail", "advance 1", "advance 1/2",
+    "make 1 1 hook make 2 1", "make 2 0 hook disconnect", "make 2 0 hook cancel 1 ; close", "stubborn 1", "cancel 1", "cancel 2", "connOk", "connFail", "advance 1", "advance 1/2",
     "bytes " + F1, "bytes " + F2, "bytes " + F1[:12], "bytes " + F1[12:], "bytes " + F2 + F1, "bytes 80000000",
     "lost", "close", "disconnect", "meta 2 9093",
 ]
